@@ -168,7 +168,9 @@ def clamped_interp(x, xs, ys):
     x = np.asarray(x, dtype=np.float64)
     out = np.empty(x.shape, dtype=np.float64)
     for i, v in enumerate(x.ravel()):
-        if v <= xs[0]:
+        if v != v:
+            out.flat[i] = np.nan            # NaN in, NaN out
+        elif v <= xs[0]:
             out.flat[i] = ys[0]
         elif v >= xs[-1]:
             out.flat[i] = ys[-1]
